@@ -240,8 +240,13 @@ fn mentions() -> S {
     ob(vec![o("user_ids", ar(S::UserId)), o("room", S::Bool)])
 }
 
-fn text_fields() -> Vec<F> {
-    vec![r("body", S::Str), o("format", S::Const("org.matrix.custom.html")), o("formatted_body", S::Str)]
+fn text_fields(formatted: bool) -> Vec<F> {
+    if formatted {
+        // `format` is required whenever `formatted_body` is present
+        vec![r("body", S::Str), r("format", S::Const("org.matrix.custom.html")), r("formatted_body", S::Str)]
+    } else {
+        vec![r("body", S::Str)]
+    }
 }
 
 fn msg(msgtype: &'static str, mut fs: Vec<F>) -> S {
@@ -257,9 +262,12 @@ fn room_message() -> S {
     let av_info = ob(vec![o("duration", S::UInt), o("mimetype", S::Const("audio/ogg")), o("size", S::UInt)]);
     let video_info = ob(vec![o("duration", S::UInt), o("h", S::UInt), o("w", S::UInt), o("mimetype", S::Const("video/mp4")), o("size", S::UInt), o("thumbnail_url", S::Mxc), o("thumbnail_info", ob(vec![o("h", S::UInt)]))]);
     S::OneOf(vec![
-        msg("m.text", text_fields()),
-        msg("m.emote", text_fields()),
-        msg("m.notice", text_fields()),
+        msg("m.text", text_fields(false)),
+        msg("m.text", text_fields(true)),
+        msg("m.emote", text_fields(false)),
+        msg("m.emote", text_fields(true)),
+        msg("m.notice", text_fields(false)),
+        msg("m.notice", text_fields(true)),
         msg("m.image", vec![r("body", S::Str), r("url", S::Mxc), o("info", image_info()), o("filename", S::Str)]),
         msg("m.image", vec![r("body", S::Str), r("file", encrypted_file()), o("info", image_info())]),
         msg("m.file", vec![r("body", S::Str), r("url", S::Mxc), o("filename", S::Str), o("info", file_info)]),
